@@ -81,6 +81,17 @@ except Exception as e:  # ./check C06 reports the broken tie itself; do not stop
 import stft as gen_stft  # noqa: E402
 gen_stft.main(C.SRC, os.path.join(C.COQ, "gen", "StftK.v"))
 print("generated", "StftK.v")
+# C02/C14: compute.py + torch.py (energy block, per-filter post-processing, log floor, DFT size) -> StftR.v
+import stft_scalar  # noqa: E402
+try:
+    stft_scalar.main(C.SRC, os.path.join(C.COQ, "gen", "StftR.v"))
+    print("generated", "StftR.v")
+except Exception as e:  # ./check C02 / C14 report the broken tie themselves
+    print("StftR.v: translator failed (%s: %s); file left as it was" % (type(e).__name__, e))
+# C03 (+ SI halves of C01/C04): compute.py (short-integration integer bookkeeping) -> SiK.v
+import si as gen_si  # noqa: E402
+gen_si.main(C.SRC, os.path.join(C.COQ, "gen", "SiK.v"))
+print("generated", "SiK.v")
 # C05: filters.py (range tests, vertices / edges, Gabor sigma, gammatone alpha / c, supports, per-bin values)
 # + util.py (Hz<->rad) + config.py (support threshold) -> Banks.v
 import banks as banks_c05  # noqa: E402
